@@ -209,6 +209,10 @@ def gen_c11(tier, seed):
                 a &= ~3
             ops.append(acc_op(k, a, rand_val(r)))
         g.add(ops, name + '-load-overrun')
+    # a host load longer than the whole device is refused (Range) and stores nothing
+    for base, size in ((0x600000, 0x2000), (0x500000, 2)):
+        for extra in (1, 7):
+            g.add(['rb:%x' % base, 'lx:%x:%s' % (base, '5a' * (size + extra)), 'rb:%x' % base, 'rb:%x' % (base + size - 1)], 'oversized-load')
     return g.result('Interleaved mixed-width reads/writes/instruction fetches on overlapping addresses in RAM, NVRAM and ROM '
                     '(device edges, unaligned addresses, ROM preloaded by the host), judged against a flat byte array.')
 
@@ -675,6 +679,16 @@ def gen_c19(tier, seed):
             else:
                 ops.append('nvget')
         g.add(['C'] + ops, 'sequential')
+    # calls on a machine whose mutex a panicking call has poisoned (stepping an uninitialised machine executes HALT from
+    # the zeroed ROM, which Cpu::step turns into a panic by design): every later call must report failure and leave its
+    # output parameters alone
+    for i in range(6 if tier == 'quick' else 60):
+        ops = [r.choice(['step', 'loop:1', 'loop:5'])]
+        for _ in range(r.randrange(8, 30)):
+            ops.append(r.choice(['step', 'loop:2', 'pc', 'reg:%x' % r.randrange(20), 'rdw:%x' % r.choice(addrs), 'rdb:%x' % r.choice(addrs),
+                                 'mm:1:2', 'md:1', 'mu:1', 'qa:41', 'qb:42', 'pa', 'pb', 'dirty', 'vram', 'oport', 'nvget',
+                                 'nvset:%x' % r.randrange(1 << 32), 'init:2', 'init:1']))
+        g.add(['C'] + ops, 'poisoned')
     # concurrent callers: a stepping thread, an input thread and a second input / polling thread
     ncon = 40 if tier == 'quick' else 1500
     for i in range(ncon):
@@ -696,6 +710,24 @@ def gen_c19(tier, seed):
             st += ['t:%x' % ((k + 1) * 1000000), 'loop:3e8']
         polls = ['pb'] * 6000
         g.add(['T', '%x' % r.randrange(1 << 32), '2', ','.join(st) + '/' + ','.join(polls) + '/' + ','.join(polls)], 'boot-contention')
+        # the same, then keys typed through the C interface once the terminal is up (the stepping thread injects them
+        # between its own steps), and afterwards the RS-232 transmit queue is drained by sequential polls
+        st2 = list(st)
+        k0 = 5200 + 1600      # boot + 1.6 s of emulated time
+        for k in range(5200, k0):
+            st2 += ['t:%x' % ((k + 1) * 1000000), 'loop:3e8']
+        keys = [r.choice(range(0x21, 0x7f)) for _ in range(r.randrange(3, 8))]
+        k = k0
+        for kc in keys:
+            st2.append('qb:%x' % kc)
+            for _ in range(30):
+                k += 1
+                st2 += ['t:%x' % ((k + 1) * 1000000), 'loop:3e8']
+        for _ in range(200):
+            k += 1
+            st2 += ['t:%x' % ((k + 1) * 1000000), 'loop:3e8']
+        g.add(['T', '%x' % r.randrange(1 << 32), '2', ','.join(st2) + '/' + ','.join(['pb'] * 3000) + '/' + ','.join(['dirty'] * 3000) + '/!' + ','.join(['pa'] * 40 + ['dirty'])],
+              'boot-then-keys')
     # injected keys in bursts: several keyboard bytes queued back to back (as an input thread does), the receiver FIFO and
     # holding register fill before the firmware reads; each must come out exactly once, in order (end-to-end on the
     # implementation, judged by mon_sys; the scenario is the one of C01's burst cases)
